@@ -51,11 +51,13 @@ class FileSystemLoader(BaseLoader):
         """
         template_path = Path(template_name)
 
+        # Don't build a path that escapes the search path. An absolute path would
+        # replace the search path when joined to it.
+        if template_path.is_absolute() or os.path.pardir in template_path.parts:
+            raise TemplateNotFoundError(template_name)
+
         if self.ext and not template_path.suffix:
             template_path = template_path.with_suffix(self.ext)
-
-        if os.path.pardir in template_path.parts:
-            raise TemplateNotFoundError(template_name)
 
         for path in self.search_path:
             source_path = path.joinpath(template_path)
